@@ -23,6 +23,9 @@ type op struct {
 type obj struct {
 	vv  buffer.VectorisedView
 	ref []byte
+	// chunks: the lengths of the chunks the content is split into, as the operations leave
+	// them. "Remove the first chunk" removes exactly one of them - also when it is empty.
+	chunks []int
 }
 
 type scenario struct {
@@ -61,7 +64,7 @@ func build(chunks []int) obj {
 		}
 		off += c
 	}
-	return obj{vv: buffer.NewVectorisedView(total, views), ref: data}
+	return obj{vv: buffer.NewVectorisedView(total, views), ref: data, chunks: append([]int(nil), chunks...)}
 }
 
 // check compares one live object with its reference byte string.
@@ -108,6 +111,25 @@ func apply(objs *[]obj, o op, clonebuf *[]buffer.View) (msg string) {
 				k = len(t.ref)
 			}
 			t.ref = t.ref[k:]
+			for k > 0 && len(t.chunks) > 0 {
+				if k < t.chunks[0] {
+					t.chunks[0] -= k
+					k = 0
+				} else {
+					k -= t.chunks[0]
+					t.chunks = t.chunks[1:]
+				}
+			}
+			// a trim that ends exactly on a chunk boundary: whether empty chunks sitting at
+			// that boundary fall before or behind the cut is not defined by the byte string;
+			// follow the implementation there
+			if len(t.chunks) > 0 && t.chunks[0] == 0 {
+				if vs := t.vv.Views(); len(vs) == 0 || len(vs[0]) != 0 {
+					for len(t.chunks) > 0 && t.chunks[0] == 0 {
+						t.chunks = t.chunks[1:]
+					}
+				}
+			}
 		}
 	case "cap":
 		t.vv.CapLength(o.N)
@@ -117,6 +139,15 @@ func apply(objs *[]obj, o op, clonebuf *[]buffer.View) (msg string) {
 		}
 		if k <= len(t.ref) {
 			t.ref = t.ref[:k]
+			left := k
+			for i := range t.chunks {
+				if left >= t.chunks[i] {
+					left -= t.chunks[i]
+				} else {
+					t.chunks[i] = left
+					left = 0
+				}
+			}
 			if vs := t.vv.Views(); k > 0 && len(vs) > 0 {
 				last := vs[len(vs)-1]
 				if cap(last) != len(last) {
@@ -125,12 +156,14 @@ func apply(objs *[]obj, o op, clonebuf *[]buffer.View) (msg string) {
 			}
 		}
 	case "rmfirst":
-		f := t.vv.First()
 		t.vv.RemoveFirst()
-		t.ref = t.ref[len(f):]
+		if len(t.chunks) > 0 {
+			t.ref = t.ref[t.chunks[0]:]
+			t.chunks = t.chunks[1:]
+		}
 	case "clone":
 		c := t.vv.Clone(nil)
-		*objs = append(*objs, obj{vv: c, ref: t.ref})
+		*objs = append(*objs, obj{vv: c, ref: t.ref, chunks: append([]int(nil), t.chunks...)})
 	case "clonebuf":
 		// scratch slices of every shape: full (len == cap), empty with room, partly filled
 		switch o.N % 3 {
@@ -142,7 +175,7 @@ func apply(objs *[]obj, o op, clonebuf *[]buffer.View) (msg string) {
 			*clonebuf = make([]buffer.View, o.N/2, o.N+3)
 		}
 		c := t.vv.Clone(*clonebuf)
-		*objs = append(*objs, obj{vv: c, ref: (*objs)[o.Obj].ref})
+		*objs = append(*objs, obj{vv: c, ref: (*objs)[o.Obj].ref, chunks: append([]int(nil), (*objs)[o.Obj].chunks...)})
 	}
 	for i := range *objs {
 		if m := check(&(*objs)[i]); m != "" {
